@@ -475,6 +475,119 @@ fn float_checks(ctx: &Ctx, idx: u64, w: usize, h: usize, cnt: &Counters) {
     }
 }
 
+/// One large image per layout (quick about 1e6 pixels, thorough more than 2^24 so that pixel indices leave the range
+/// in which f32 and 24-bit arithmetic are exact): the whole-image result must equal the results of its top and
+/// bottom halves converted separately, and the 1x1 conversions of corner, tail and random pixels.
+fn large_image_checks(ctx: &Ctx, cnt: &Counters) {
+    let (w, h) = if ctx.tier == Tier::Thorough { (4100usize, 4100usize) } else { (1032usize, 1028usize) };
+    let layouts: [((u8, u8), u8, bool); 3] = [((1, 1), 8, true), ((0, 0), 10, false), ((1, 0), 16, false)];
+    std::thread::scope(|sc| {
+        for (li, (ss, depth, u8s)) in layouts.into_iter().enumerate() {
+            sc.spawn(move || {
+                let r = ev::guarded(|| {
+                    if u8s {
+                        large_one::<u8>(ctx, li as u64, w, h, ss, depth, cnt)
+                    } else {
+                        large_one::<u16>(ctx, li as u64, w, h, ss, depth, cnt)
+                    }
+                });
+                if let Err(msg) = r {
+                    ev::violation(format!("C11|panic|large-image|{}", ev::panic_site(&msg)), msg, J::obj().set("kind", "c11-large").set("w", w).set("h", h));
+                }
+                yuvxyb_math::verif::flush();
+            });
+        }
+    });
+}
+
+fn large_one<T: Pixel>(ctx: &Ctx, li: u64, w: usize, h: usize, ss: (u8, u8), depth: u8, cnt: &Counters) {
+    let maxv = if std::mem::size_of::<T>() == 1 { 255u64 } else { (1u64 << depth) - 1 };
+    let cfg = pick_cfg(li * 5 + 1, depth, ss);
+    let (cw, ch) = (w >> ss.0, h >> ss.1);
+    let val = |p: usize, x: usize, y: usize| -> u32 { (crate::gen::hash64((p as u64) << 48 | (y as u64) << 24 | x as u64) % (maxv + 1)) as u32 };
+    let whole: Img<T> = Img {
+        w,
+        h,
+        ss,
+        planes: [
+            (0..w * h).map(|i| val(0, i % w, i / w)).collect(),
+            (0..cw * ch).map(|i| val(1, i % cw, i / cw)).collect(),
+            (0..cw * ch).map(|i| val(2, i % cw, i / cw)).collect(),
+        ],
+        _t: std::marker::PhantomData,
+    };
+    let mut junk = Rng::new(ctx.seed, 0xB16 + li);
+    let case = || J::obj().set("kind", "c11-large").set("w", w).set("h", h).set("ss", [ss.0, ss.1]).set("cfg", cfg_json(&cfg));
+    let Ok(full) = Rgb::try_from(&build_yuv(&whole, PADS[0], &mut junk, cfg)) else {
+        viol("decode-error|large-image", format!("{cfg:?}"), case());
+        return;
+    };
+    cnt.images.fetch_add(1, Relaxed);
+    // halves (split on a chroma-row boundary)
+    let h1 = (h / 2) & !3;
+    for (y0, y1) in [(0usize, h1), (h1, h)] {
+        let hh = y1 - y0;
+        let (c0, c1) = (y0 >> ss.1, y1 >> ss.1);
+        let part: Img<T> = Img {
+            w,
+            h: hh,
+            ss,
+            planes: [whole.planes[0][y0 * w..y1 * w].to_vec(), whole.planes[1][c0 * cw..c1 * cw].to_vec(), whole.planes[2][c0 * cw..c1 * cw].to_vec()],
+            _t: std::marker::PhantomData,
+        };
+        let Ok(pr) = Rgb::try_from(&build_yuv(&part, PADS[3], &mut junk, cfg)) else { continue };
+        cnt.layout_checks.fetch_add(1, Relaxed);
+        if let Some(i) = bits_eq(&full.data()[y0 * w..y1 * w], pr.data()) {
+            viol(
+                "position-dependent|large-image",
+                format!("pixel {} of the {w}x{h} image (row {}) decodes differently from the same pixel in the {w}x{hh} image holding rows {y0}..{y1}", y0 * w + i, y0 + i / w.max(1)),
+                case().set("rows", [y0, y1]),
+            );
+        }
+    }
+    // 1x1 probes: corners, the last pixels, around index 2^24, random
+    let cfg1 = YuvConfig { subsampling_x: 0, subsampling_y: 0, ..cfg };
+    let n = w * h;
+    let mut idxs: Vec<usize> = vec![0, w - 1, n - w, n - 1, n - 2, n - 3, n - 5, n / 2];
+    for d in [-1i64, 0, 1] {
+        let k = (1i64 << 24) + d;
+        if (k as usize) < n {
+            idxs.push(k as usize);
+        }
+    }
+    for _ in 0..64 {
+        idxs.push(junk.below(n as u64) as usize);
+    }
+    for i in idxs {
+        let (x, y) = (i % w, i / w);
+        let t = [whole.planes[0][i], whole.planes[1][(y >> ss.1) * cw + (x >> ss.0)], whole.planes[2][(y >> ss.1) * cw + (x >> ss.0)]];
+        let one: Yuv<T> = mk_yuv(&[t], cfg1);
+        cnt.pixel_checks.fetch_add(1, Relaxed);
+        if let Ok(r1) = Rgb::try_from(&one) {
+            if bits_eq(&full.data()[i..i + 1], r1.data()).is_some() {
+                viol("not-pointwise|large-image", format!("pixel ({x},{y}) of the {w}x{h} image decodes to {:?}, its 1x1 image to {:?}", full.data()[i], r1.data()[0]), case().set("x", x).set("y", y));
+                break;
+            }
+        }
+    }
+    // float chain on the decoded data: the whole image vs its halves through LinearRgb -> Xyb -> LinearRgb
+    let chain = |d: Vec<[f32; 3]>, ww: usize, hh: usize| -> Option<Vec<[f32; 3]>> {
+        let r = Rgb::new(d, ww, hh, cfg.transfer_characteristics, cfg.color_primaries).ok()?;
+        let l = LinearRgb::try_from(r).ok()?;
+        Some(LinearRgb::from(Xyb::from(l)).into_data())
+    };
+    if let Some(fc) = chain(full.data().to_vec(), w, h) {
+        for (y0, y1) in [(0usize, h1), (h1, h)] {
+            if let Some(pc) = chain(full.data()[y0 * w..y1 * w].to_vec(), w, y1 - y0) {
+                cnt.layout_checks.fetch_add(1, Relaxed);
+                if let Some(i) = bits_eq(&fc[y0 * w..y1 * w], &pc) {
+                    viol("position-dependent|large-image|float-chain", format!("pixel {} of the {w}x{h} image converts differently (Rgb->LinearRgb->Xyb->LinearRgb) from the same pixel in a half-height image", y0 * w + i), case().set("rows", [y0, y1]));
+                }
+            }
+        }
+    }
+}
+
 fn sizes(ctx: &Ctx) -> Vec<(usize, usize)> {
     let mut v = Vec::new();
     if ctx.tier == Tier::Thorough {
@@ -534,6 +647,7 @@ pub fn c11(ctx: &Ctx) {
             *g.entry(key).or_insert(0) += v;
         }
     });
+    large_image_checks(ctx, &cnt);
     let g = hist.lock().unwrap();
     let tbl: Vec<J> = g.iter().map(|((sx, sy, dx, dy), n)| J::obj().set("ss", [*sx, *sy]).set("source_pixel_in_block", [*dx, *dy]).set("chroma_samples", *n)).collect();
     ev::observe("chroma_source_pixel_histogram", J::Arr(tbl));
